@@ -108,6 +108,14 @@ CHECKS = {
          "DESIGN.md section 5, C18"),
 }
 
+# properties whose thorough tier also runs the coverage-guided stage (Check::fuzz_families)
+FUZZED = {
+ "C01": "text, unicode, mutations, valid", "C02": "programs", "C03": "alias-chains, programs", "C04": "injected",
+ "C05": "random", "C06": "files, multifile", "C09": "programs, diagnostics, comment-defects, snippets", "C10": "values",
+ "C11": "random, mutate, duplicate-keys", "C12": "out-random, in-random", "C15": "in-process", "C16": "comments, defects",
+ "C17": "tree", "C19": "roundtrip", "C20": "programs",
+}
+
 NOT_YET = "check not built yet in this session (see DESIGN.md section 9 for the build order); will be claimed once its machinery is in place"
 
 def main():
@@ -118,6 +126,8 @@ def main():
         pid = p['id']
         if pid in CHECKS:
             tech, cat, text, note, ref = CHECKS[pid]
+            if pid in FUZZED:
+                tech += "; thorough tier adds a coverage-guided libFuzzer/ASan stage over the same case functions (families: " + FUZZED[pid] + ")"
             checks.append({
                 "property_id": pid,
                 "quick_cmd": f"./check {pid} quick",
@@ -143,7 +153,7 @@ def main():
         },
         "engines": [
             {"name": "vcheck", "path": "/verif/harness", "serves_properties": sorted(CHECKS.keys()),
-             "kind_free_text": "Rust harness: supervisor + 16 isolated worker processes with mmap crash journal; proptest-driven choice-sequence generators (arbitrary::Unstructured), bounded-exhaustive enumerators, reference models / differential / metamorphic oracles, shrinking, replay files"},
+             "kind_free_text": "Rust harness: supervisor + 16 isolated worker processes with mmap crash journal; proptest-driven choice-sequence generators (arbitrary::Unstructured), bounded-exhaustive enumerators, reference models / differential / metamorphic oracles, shrinking, replay files; thorough tier: one cargo-fuzz (libFuzzer + ASan) target under /verif/fuzz drives the same case functions, saved inputs are re-judged by the ordinary single-case process"},
         ],
         "checks": checks,
         "notes": "Exit contract: 0 held, 1 VIOLATION line, 2 infrastructure/inconclusive. Known findings: /verif/known_findings.json. Seeded changes used for sensitivity: /verif/seeded/.",
